@@ -13,7 +13,7 @@ class Prop:
     thorough_runs = 4000000
     rule = ("seeded (start, stop in {None,-9..9}, step in {None,1..8}, form in {ops.slice, source[a:b:c], source[i]}) over one generated "
             "timeline of 0-7 elements (cold/hot/sync; completion, error at any position, or no terminal); emitted values and terminal "
-            "compared with list(source)[start:stop:step]. Distinct = (form, start, stop, step, length, terminal, observed); non-trivial = the "
+            "compared with list(source)[start:stop:step]; optionally the same sliced observable is subscribed a second time. Distinct = (form, start, stop, step, length, terminal, observed); non-trivial = the "
             "expected slice is non-empty or the source errors.")
     assumptions = ["essentially a pure function of the input; the simulated dimensions are the error position, the missing terminal and the source kind",
                    "an error is required to pass through unless the slice was already complete (non-negative start and stop, stop elements seen)"]
@@ -35,6 +35,9 @@ class Prop:
               "step": rng.choice([None, 1, 1, 2, 3, 4, 8]), "sub_t": 205, "horizon": 1200}
         if form == "index":
             sc["start"] = rng.randrange(-9, 10)
+        off = rng.choice([None, None, None, 37, 123, 411])
+        if off:
+            sc["sub2_t"] = 205 + off  # the same sliced observable is subscribed a second time
         return sc
 
     def execute(self, sc):
@@ -52,28 +55,42 @@ class Prop:
             a = 0 if a is None else a
             obs = src[a]
             b, c = a + 1, 1
-        rec = vt.Recorder(w, "r", follow=False)
-        t0 = sc["sub_t"]
-        w.at(t0, lambda: rec.subscribe(obs))
+        times = [sc["sub_t"]] + ([sc["sub2_t"]] if sc.get("sub2_t") is not None else [])
+        recs = [vt.Recorder(w, "r%d" % i, follow=False) for i in range(len(times))]
+        for r_, t_ in zip(recs, times):
+            w.at(t_, (lambda r_=r_: r_.subscribe(obs)))
         w.run(sc["horizon"])
+        if w.escaped:
+            out.bad("escaped", repr(w.escaped[0][2:]))
+        for i, (rec, t0) in enumerate(zip(recs, times)):
+            self.judge(sc, out, spec, rec, t0, a, b, c, "" if i == 0 else " [second subscription of the same observable at t=%s]" % t0, i == 0)
+            if out.viol:
+                break
+        if a is not None and a < 0 and b is not None and b >= 0:
+            out.probes["neg_start_nonneg_stop"] += 1
+        return out
+
+    def judge(self, sc, out, spec, rec, t0, a, b, c, tag, first):
         evs = chain.visible(spec, t0)
         els, term = models.split(evs)
         vals = [v for _, v in els]
         got = models.norm(rec.events_kv())
         gvals = [g[2] for g in got if g[1] == "N"]
         gterm = [g for g in got if g[1] in "CE"]
-        out.digest = (sc["form"], a, b, c, len(vals), term[1] if term else None, tuple(got))
-        out.sim_time = sc["horizon"]
+        if first:
+            out.digest = (sc["form"], a, b, c, len(vals), term[1] if term else None, tuple(got), sc.get("sub2_t"))
+            out.sim_time = sc["horizon"]
+        else:
+            out.probes["second_subscription_checked"] += 1
         g = vt.grammar_violation(rec)
         if g:
-            out.bad("grammar", g)
-        if w.escaped:
-            out.bad("escaped", repr(w.escaped[0][2:]))
+            out.bad("grammar", g + tag)
         want = [vt.vkey(v) for v in vals[a:b:c]]
-        out.nontrivial = bool(want) or bool(term and term[1] == "E")
+        if first:
+            out.nontrivial = bool(want) or bool(term and term[1] == "E")
         nonneg = (a is None or a >= 0) and (b is None or b >= 0)
         decided = (b == 0) or (nonneg and b is not None and len(vals) >= b)  # slice complete after `stop` elements
-        desc = "form=%s [%r:%r:%r] over %s terminal=%s" % (sc["form"], sc["start"], sc["stop"], sc["step"], vals, term[1] if term else None)
+        desc = "form=%s [%r:%r:%r] over %s terminal=%s%s" % (sc["form"], sc["start"], sc["stop"], sc["step"], vals, term[1] if term else None, tag)
         if term and term[1] == "C":
             out.probes["completed"] += 1
             if gvals != want or not gterm or gterm[0][1] != "C":
@@ -94,9 +111,6 @@ class Prop:
                         out.bad("slice-mismatch", "%s emitted %s which is not a prefix of %s" % (desc, gvals, stream))
                 elif gvals:
                     out.bad("slice-mismatch", "%s emitted %s before the end-relative start could be known" % (desc, gvals))
-        if a is not None and a < 0 and b is not None and b >= 0:
-            out.probes["neg_start_nonneg_stop"] += 1
-        return out
 
     def signature(self, sc, rule, msg):
         a, b = sc.get("start"), sc.get("stop")
